@@ -5,7 +5,7 @@ from __future__ import annotations
 from pbt import strategies as S
 from pbt.common import Stats, Sub, Violation
 from pbt.model import Model
-from pbt.sut import mk_incremental_queried, query_everything, mk_converter
+from pbt.sut import mk_incremental_queried, mk_split_merge, query_everything, mk_converter
 
 PROPERTY_ID = "C03"
 RULE = (
@@ -105,6 +105,11 @@ def check(case, stats: Stats) -> None:
         _check_on(inc, case, Stats())
     except Violation as v:
         v.message = "[converter built incrementally with interleaved queries] " + v.message
+        raise
+    try:
+        _check_on(mk_split_merge(spec), case, Stats())
+    except Violation as v:
+        v.message = "[converter built by merging whole records that are named after a synonym] " + v.message
         raise
 
 
